@@ -4,6 +4,7 @@
   object's listener dict (`_listeners.values()`), a permutation of the order `Sys.broadcast` uses.
 -/
 import Wormhole.Inv.RegCore
+import Wormhole.Inv.RegTrace
 
 set_option linter.unusedSimpArgs false
 
@@ -245,6 +246,384 @@ theorem handleRelease_spec {r : RSys} (h : r.RegInv) (x : RConn) (app side : Str
       · simp only [ne_eq, Decidable.not_not] at hne ⊢
         simp only [hne, not_true_eq_false, if_false]
         exact go _
+
+end RSys
+end Wormhole
+
+namespace Wormhole
+namespace RSys
+
+/-! ### open -/
+
+theorem handleOpen_spec {r : RSys} (h : r.RegInv) {x : RConn} (hx : x ∈ r.conns) {app : String}
+    (happ : x.app = some app) (side : String) (t : Time) (mailbox : Option String) :
+    (r.handleOpen .fixed x app side t mailbox).RegInv ∧
+    (r.handleOpen .fixed x app side t mailbox).abs = r.abs.handleOpen (absConn r.mbs x) app side t mailbox := by
+  unfold handleOpen Sys.handleOpen
+  simp only [appOf_fixed, absConn_id]
+  have e := absConn_mailbox_isSome h hx
+  by_cases hm : x.mailbox.isSome = true
+  · have hm' : (absConn r.mbs x).mailbox.isSome = true := by rw [e]; exact hm
+    simp only [hm, hm', if_true]
+    exact ⟨h.sendError _ _, rfl⟩
+  · have hm' : ¬ (absConn r.mbs x).mailbox.isSome = true := by rw [e]; exact hm
+    simp only [hm, hm', Bool.false_eq_true, if_false]
+    have hnone : x.mailbox = none := by
+      cases e' : x.mailbox with
+      | none => rfl
+      | some o => simp [e'] at hm
+    cases mailbox with
+    | none => exact ⟨h.sendError _ _, rfl⟩
+    | some mb =>
+      dsimp only
+      have h0 : (r.updConn x.id (fun y => { y with mailboxId := some mb })).RegInv :=
+        h.updConn_flags _ _ (fun _ => rfl) (fun _ => rfl) (fun _ => rfl) (fun _ => rfl)
+      have a0 : (r.updConn x.id (fun y => { y with mailboxId := some mb })).abs =
+          r.abs.updConn x.id (fun y => { y with mailboxId := some mb }) :=
+        abs_updConn _ _ _ _ (fun _ _ _ => rfl)
+      have hx0 : ({ x with mailboxId := some mb } : RConn) ∈ (r.updConn x.id (fun y => { y with mailboxId := some mb })).conns :=
+        List.mem_map.2 ⟨x, hx, by simp⟩
+      generalize r.updConn x.id (fun y => { y with mailboxId := some mb }) = r0 at *
+      rw [← a0]
+      obtain ⟨j1, j2, j3, _, _, j6⟩ := getApp_spec h0 app
+      obtain ⟨k1, k2, k3, k4, _, k6⟩ := openMailbox_spec j1 j6 mb side t
+      rw [j2] at k2 k3
+      rcases hq : (r0.getApp app).1.openMailbox (r0.getApp app).2 mb side t with ⟨r1, res, o⟩
+      rcases hs : r0.abs.openMailbox app mb side t with ⟨s1, res'⟩
+      rw [hq] at k1 k4 k6; rw [hq, hs] at k2 k3
+      simp only at k1 k2 k3 k4 k6
+      subst k2 k3
+      cases res with
+      | crowded => exact ⟨k1.sendError _ _, rfl⟩
+      | integrity => exact ⟨k1.internalErr _ _, rfl⟩
+      | ok =>
+        dsimp only
+        have hx1 : ({ x with mailboxId := some mb } : RConn) ∈ r1.conns := by rw [k4, j3]; exact hx0
+        obtain ⟨m1, m2⟩ := subscribe_spec k1 hx1 hnone (app := app) (mb := mb) (o := o) happ (k6 rfl)
+        have hreg2 : ((r1.updConn x.id (fun z => { z with mailbox := some o, listening := true })).addListener o
+            x.id).Registered app mb o := k6 rfl
+        obtain ⟨k, hk, ek1, ek2, ek3⟩ := hreg2.obj m1
+        have hf := (findMb_eq_some m1).2 ⟨hk, ek1⟩
+        rw [hf]
+        dsimp only
+        rw [ek2, ek3]
+        refine ⟨m1.onCore _, ?_⟩
+        rw [abs_onCore _ _ (by intro s cs; simp), m2]
+
+/-! ### add -/
+
+/-- the listener dict of a registered object is a permutation of `Sys.listeners` -/
+theorem RegInv.listeners_perm {r : RSys} (h : r.RegInv) {k : MbObj} (hk : k ∈ r.mbs)
+    (hreg : r.Registered k.app k.mailboxId k.oid) : k.listeners.Perm (r.abs.listeners k.app k.mailboxId) := by
+  have hform : r.abs.listeners k.app k.mailboxId =
+      (r.conns.filter (fun y => decide (y.listening = true ∧ y.app = some k.app ∧
+        (absConn r.mbs y).mailbox = some k.mailboxId))).map (·.id) := by
+    unfold Sys.listeners
+    rw [abs_conns, aconns, List.filter_map, List.map_map]
+    rfl
+  rw [hform]
+  apply (List.perm_ext_iff_of_nodup (h.lisNodup k hk) ?_).2
+  · intro c
+    simp only [List.mem_map, List.mem_filter, decide_eq_true_eq]
+    constructor
+    · intro hc
+      obtain ⟨y, hy, e1, _⟩ := h.lisConn k hk c hc
+      exact ⟨y, ⟨hy, (h.mem_listeners_iff hk hreg hy).1 (by rw [e1]; exact hc)⟩, e1⟩
+    · rintro ⟨y, ⟨hy, hp⟩, rfl⟩
+      exact (h.mem_listeners_iff hk hreg hy).2 hp
+  · show List.Pairwise _ _
+    rw [List.pairwise_map]
+    exact List.Pairwise.filter _ h.connIds
+
+theorem foldl_send (f : Frame) (ls : List Nat) : ∀ s : Sys,
+    ls.foldl (fun s c => s.send c f) s = { s with out := s.out ++ ls.map (fun c => Event.frame c f s.synced) } := by
+  induction ls with
+  | nil => intro s; simp
+  | cons c rest ih =>
+    intro s
+    rw [List.foldl_cons, ih]
+    simp only [Sys.send, Sys.emit, Sys.synced, List.map_cons, List.append_assoc, List.singleton_append]
+    rfl
+
+theorem abs_broadcast (r : RSys) (ls : List Nat) (f : Frame) :
+    (r.broadcast ls f).abs = ls.foldl (fun s c => s.send c f) r.abs := by
+  unfold broadcast
+  induction ls generalizing r with
+  | nil => rfl
+  | cons c rest ih => simp only [List.foldl_cons]; rw [ih, abs_send]
+
+theorem RegInv.broadcast {r : RSys} (h : r.RegInv) (ls : List Nat) (f : Frame) : (r.broadcast ls f).RegInv := by
+  unfold RSys.broadcast
+  induction ls generalizing r with
+  | nil => exact h
+  | cons c rest ih => simp only [List.foldl_cons]; exact ih (h.send c f)
+
+/-- `handle_add`: same state; the broadcast batch in the listener-dict order -/
+theorem handleAdd_spec {r : RSys} (h : r.RegInv) {x : RConn} (hx : x ∈ r.conns) {app : String}
+    (happ : x.app = some app) (hl : x.mailbox.isSome → x.listening = true) (side : String) (t : Time) (id : Val)
+    (phase body : Option Val) :
+    (r.handleAdd x side t id phase body).RegInv ∧
+    OutEq (r.handleAdd x side t id phase body).abs (r.abs.handleAdd (absConn r.mbs x) app side t id phase body) := by
+  unfold handleAdd Sys.handleAdd
+  simp only [absConn_id]
+  cases hm : x.mailbox with
+  | none =>
+    rw [absConn_mailbox_none hm]
+    exact ⟨h.sendError _ _, .refl _⟩
+  | some o =>
+    obtain ⟨k, hk, rfl, ha⟩ := h.heldObj x hx o hm
+    rw [absConn_mailbox_eq h hk hm]
+    dsimp only
+    cases phase with
+    | none => exact ⟨h.sendError _ _, .refl _⟩
+    | some ph =>
+      cases body with
+      | none => exact ⟨h.sendError _ _, .refl _⟩
+      | some bd =>
+        dsimp only
+        rw [(findMb_eq_some h).2 ⟨hk, rfl⟩]
+        dsimp only
+        have hka : k.app = app := by rw [happ] at ha; exact (Option.some.inj ha).symm
+        subst hka
+        have hreg := h.heldReg x hx k hk hm (hl (by simp [hm]))
+        have h1 := h.onCore (fun s => s.addMessage k.app k.mailboxId side ph bd t id)
+        have a1 : (r.onCore (fun s => s.addMessage k.app k.mailboxId side ph bd t id)).abs =
+            r.abs.addMessage k.app k.mailboxId side ph bd t id := abs_onCore _ _ (by intro s cs; simp)
+        have hk1 : k ∈ (r.onCore (fun s => s.addMessage k.app k.mailboxId side ph bd t id)).mbs := hk
+        have hreg1 : (r.onCore (fun s => s.addMessage k.app k.mailboxId side ph bd t id)).Registered k.app
+            k.mailboxId k.oid := hreg
+        rw [← a1]
+        generalize r.onCore (fun s => s.addMessage k.app k.mailboxId side ph bd t id) = r1 at *
+        refine ⟨h1.broadcast _ _, ?_⟩
+        rw [abs_broadcast]
+        unfold Sys.broadcast
+        rw [foldl_send, foldl_send]
+        have hb := TraceEq.batch (.message side ph bd t id) r1.abs.synced (a := []) (b := []) rfl
+          (h1.listeners_perm hk1 hreg1) TraceEq.nil
+        simp only [List.append_nil] at hb
+        exact ⟨rfl, (TraceEq.refl _).append hb⟩
+
+end RSys
+end Wormhole
+
+namespace Wormhole
+namespace RSys
+
+/-! ### close -/
+
+theorem absConn_hold' {mbs : List MbObj} {o : Nat} {mb : String} (hmb : mbIdOf mbs o = some mb) (y : RConn) :
+    absConn mbs { y with mailbox := some o } = { absConn mbs y with mailbox := some mb } := by
+  have := absConn_hold hmb y y.listening
+  exact this
+
+/-- the end of `handle_close`: `self._mailbox.close(...)`, `self._mailbox = None`, the answer -/
+theorem closeFinish_spec {r2 : RSys} (h2 : r2.RegInv) {k : MbObj} (hk : k ∈ r2.mbs)
+    (hreg : r2.Registered k.app k.mailboxId k.oid) (c : Nat) (hnl : ∀ y ∈ r2.conns, y.id = c → y.listening = false)
+    (side : String) (mood : Option String) (t : Time) :
+    (match r2.mailboxClose .fixed k.oid side mood t with
+      | (r3, false) => r3.internalErr c "IndexError"
+      | (r3, true) => (r3.updConn c (fun y => { y with mailbox := none })).send c .closed).RegInv ∧
+    (match r2.mailboxClose .fixed k.oid side mood t with
+      | (r3, false) => r3.internalErr c "IndexError"
+      | (r3, true) => (r3.updConn c (fun y => { y with mailbox := none })).send c .closed).abs =
+    (match r2.abs.mailboxClose k.app k.mailboxId side mood t with
+      | (s3, false) => s3.internalErr c "IndexError"
+      | (s3, true) => (s3.updConn c (fun y => { y with mailbox := none })).send c .closed) := by
+  obtain ⟨k1, k2, k3, k4⟩ := mailboxClose_spec h2 hk hreg side mood t
+  rcases hq : r2.mailboxClose .fixed k.oid side mood t with ⟨r3, b⟩
+  rcases hs : r2.abs.mailboxClose k.app k.mailboxId side mood t with ⟨s3, b'⟩
+  rw [hq] at k1 k4; rw [hq, hs] at k2 k3
+  simp only at k1 k2 k3 k4
+  subst k2 k3
+  cases b
+  · exact ⟨k1.internalErr _ _, rfl⟩
+  · dsimp only
+    refine ⟨(k1.updConn_unhold c (fun y => { y with mailbox := none }) (fun _ => rfl) ?_).send _ _, ?_⟩
+    · intro y hy e
+      refine ⟨?_, rfl⟩
+      cases hyl : y.listening with
+      | false => rfl
+      | true =>
+        obtain ⟨y0, hy0, e0, l0⟩ := k4 y hy hyl
+        have := hnl y0 hy0 (by rw [e0, e])
+        rw [this] at l0; cases l0
+    · rw [abs_send, abs_updConn _ _ _ (fun y => { y with mailbox := none }) (fun _ _ _ => rfl)]
+
+theorem handleClose_spec {r : RSys} (h : r.RegInv) {x : RConn} (hx : x ∈ r.conns) {app : String}
+    (happ : x.app = some app) (hcoh : x.mailbox.isSome = true ↔ x.listening = true) (side : String) (t : Time)
+    (mailbox : Option String) (mood : Option String) :
+    (r.handleClose .fixed x app side t mailbox mood).RegInv ∧
+    (r.handleClose .fixed x app side t mailbox mood).abs =
+      r.abs.handleClose (absConn r.mbs x) app side t mailbox mood := by
+  have hxu : ∀ y ∈ r.conns, y.id = x.id → y = x := fun y hy e => pw_eq (f := RConn.id) h.connIds hy hx e
+  have go : ∀ mb : String,
+      (match (match x.mailbox with
+          | some hh => (r, Sys.OpenRes.ok, hh)
+          | none =>
+            match (r.appOf .fixed x app).1.openMailbox (r.appOf .fixed x app).2 mb side t with
+            | (r1, res, o) => (r1.updConn x.id (fun y => if res = Sys.OpenRes.ok then { y with mailbox := some o } else y), res, o)) with
+        | (r1, .crowded, _) => r1.sendError x.id "crowded"
+        | (r1, .integrity, _) => r1.internalErr x.id "IntegrityError"
+        | (r1, .ok, hh) =>
+          match (((if x.listening then r1.removeListener hh x.id else r1)).updConn x.id
+            (fun y => { y with listening := false, didClose := true })).mailboxClose .fixed hh side mood t with
+          | (r3, false) => r3.internalErr x.id "IndexError"
+          | (r3, true) => (r3.updConn x.id (fun y => { y with mailbox := none })).send x.id .closed).RegInv ∧
+      (match (match x.mailbox with
+          | some hh => (r, Sys.OpenRes.ok, hh)
+          | none =>
+            match (r.appOf .fixed x app).1.openMailbox (r.appOf .fixed x app).2 mb side t with
+            | (r1, res, o) => (r1.updConn x.id (fun y => if res = Sys.OpenRes.ok then { y with mailbox := some o } else y), res, o)) with
+        | (r1, .crowded, _) => r1.sendError x.id "crowded"
+        | (r1, .integrity, _) => r1.internalErr x.id "IntegrityError"
+        | (r1, .ok, hh) =>
+          match (((if x.listening then r1.removeListener hh x.id else r1)).updConn x.id
+            (fun y => { y with listening := false, didClose := true })).mailboxClose .fixed hh side mood t with
+          | (r3, false) => r3.internalErr x.id "IndexError"
+          | (r3, true) => (r3.updConn x.id (fun y => { y with mailbox := none })).send x.id .closed).abs =
+      (match (match (absConn r.mbs x).mailbox with
+          | some hh => (r.abs, Sys.OpenRes.ok, hh)
+          | none =>
+            match r.abs.openMailbox app mb side t with
+            | (s1, res) => (s1.updConn x.id (fun y => if res = Sys.OpenRes.ok then { y with mailbox := some mb } else y), res, mb)) with
+        | (s1, .crowded, _) => s1.sendError x.id "crowded"
+        | (s1, .integrity, _) => s1.internalErr x.id "IntegrityError"
+        | (s1, .ok, hh) =>
+          match (s1.updConn x.id (fun y => { y with listening := false, didClose := true })).mailboxClose app hh side
+              mood t with
+          | (s3, false) => s3.internalErr x.id "IndexError"
+          | (s3, true) => (s3.updConn x.id (fun y => { y with mailbox := none })).send x.id .closed) := by
+    intro mb
+    cases hm : x.mailbox with
+    | some o =>
+      obtain ⟨k, hk, rfl, ha⟩ := h.heldObj x hx o hm
+      have hka : k.app = app := by rw [happ] at ha; exact (Option.some.inj ha).symm
+      subst hka
+      have hlis : x.listening = true := hcoh.1 (by simp [hm])
+      have hreg := h.heldReg x hx k hk hm hlis
+      rw [absConn_mailbox_eq h hk hm]
+      dsimp only
+      simp only [hlis, if_true]
+      have h2 := unlisten_spec h hx hm (fun y => { y with listening := false, didClose := true }) (fun _ => rfl)
+        (fun _ => rfl) (fun _ => rfl) (fun _ => rfl)
+      simp only [hlis, if_true] at h2
+      have a2 : ((r.removeListener k.oid x.id).updConn x.id (fun y => { y with listening := false, didClose := true })).abs =
+          r.abs.updConn x.id (fun y => { y with listening := false, didClose := true }) := by
+        rw [abs_updConn _ _ _ (fun y => { y with listening := false, didClose := true }) (fun _ _ _ => rfl),
+          abs_removeListener]
+      rw [← a2]
+      let k' : MbObj := { k with listeners := k.listeners.filter (fun d => ¬ d = x.id) }
+      have hk' : k' ∈ ((r.removeListener k.oid x.id).updConn x.id
+          (fun y => { y with listening := false, didClose := true })).mbs :=
+        List.mem_map.2 ⟨k, hk, by simp [k']⟩
+      have hreg' : ((r.removeListener k.oid x.id).updConn x.id
+          (fun y => { y with listening := false, didClose := true })).Registered k'.app k'.mailboxId k'.oid := hreg
+      exact closeFinish_spec h2 hk' hreg' x.id (by
+        intro y hy e
+        obtain ⟨y0, _, rfl⟩ := List.mem_map.1 hy
+        split at e <;> simp_all) side mood t
+    | none =>
+      rw [absConn_mailbox_none hm]
+      dsimp only
+      have hnl : x.listening = false := by
+        cases e : x.listening with
+        | false => rfl
+        | true => have := hcoh.2 e; simp [hm] at this
+      rw [appOf_fixed]
+      obtain ⟨j1, j2, j3, _, _, j6⟩ := getApp_spec h app
+      obtain ⟨m1, m2, m3, m4, _, m6⟩ := openMailbox_spec j1 j6 mb side t
+      rw [j2] at m2 m3
+      rcases hq : (r.getApp app).1.openMailbox (r.getApp app).2 mb side t with ⟨r1, res, o⟩
+      rcases hs : r.abs.openMailbox app mb side t with ⟨s1, res'⟩
+      rw [hq] at m1 m4 m6; rw [hq, hs] at m2 m3
+      simp only at m1 m2 m3 m4 m6
+      subst m2 m3
+      have hx1 : x ∈ r1.conns := by rw [m4, j3]; exact hx
+      have hxu1 : ∀ y ∈ r1.conns, y.id = x.id → y = x := by rw [m4, j3]; exact hxu
+      cases res with
+      | crowded =>
+        dsimp only
+        refine ⟨(m1.updConn_flags x.id _ ?_ ?_ ?_ ?_).sendError _ _, ?_⟩
+        · intro y; simp
+        · intro y; simp
+        · intro y; simp
+        · intro y; simp
+        · rw [abs_sendError, abs_updConn _ _ _ (fun y => if Sys.OpenRes.crowded = Sys.OpenRes.ok then { y with mailbox := some mb } else y)
+            (by intro y _ _; simp)]
+      | integrity =>
+        dsimp only
+        refine ⟨(m1.updConn_flags x.id _ ?_ ?_ ?_ ?_).internalErr _ _, ?_⟩
+        · intro y; simp
+        · intro y; simp
+        · intro y; simp
+        · intro y; simp
+        · rw [abs_internalErr, abs_updConn _ _ _ (fun y => if Sys.OpenRes.integrity = Sys.OpenRes.ok then { y with mailbox := some mb } else y)
+            (by intro y _ _; simp)]
+      | ok =>
+        simp only [if_true, hnl, Bool.false_eq_true, if_false]
+        obtain ⟨k, hk, ek1, ek2, ek3⟩ := (m6 rfl).obj m1
+        subst ek1
+        -- `self._mailbox = <the registered object>` on a connection that holds nothing and does not listen
+        have h1' : (r1.updConn x.id (fun y => { y with mailbox := some k.oid })).RegInv := by
+          refine m1.updConn x.id _ (fun _ => rfl) ?_
+          intro y hy e
+          have := hxu1 y hy e; subst this
+          refine ⟨?_, ?_, ?_, ?_⟩
+          · intro o' e'
+            simp only [Option.some.injEq] at e'
+            subst e'
+            exact ⟨k, hk, rfl, by simp only; rw [happ, ek2]⟩
+          · intro k2 _ _ hl
+            simp only [hnl] at hl
+            cases hl
+          · intro k2 hk2 _
+            simp only [hnl, Bool.false_eq_true, iff_false]
+            exact m1.not_listener_of_no_mailbox hy hm hk2
+          · intro k2 hk2 hc
+            exact absurd hc (m1.not_listener_of_no_mailbox hy hm hk2)
+        have a1' : (r1.updConn x.id (fun y => { y with mailbox := some k.oid })).abs =
+            r1.abs.updConn x.id (fun y => { y with mailbox := some mb }) := by
+          apply abs_updConn
+          intro y _ _
+          exact absConn_hold' (by rw [mbIdOf_eq m1 hk, ek3]) y
+        have hx1' : ({ x with mailbox := some k.oid } : RConn) ∈ (r1.updConn x.id (fun y => { y with mailbox := some k.oid })).conns :=
+          List.mem_map.2 ⟨x, hx1, by simp⟩
+        have h2 := unlisten_spec h1' hx1' (o := k.oid) rfl (fun y => { y with listening := false, didClose := true })
+          (fun _ => rfl) (fun _ => rfl) (fun _ => rfl) (fun _ => rfl)
+        simp only [hnl, Bool.false_eq_true, if_false] at h2
+        have a2 : ((r1.updConn x.id (fun y => { y with mailbox := some k.oid })).updConn x.id
+            (fun y => { y with listening := false, didClose := true })).abs =
+            (r1.abs.updConn x.id (fun y => { y with mailbox := some mb })).updConn x.id
+              (fun y => { y with listening := false, didClose := true }) := by
+          rw [abs_updConn _ _ _ (fun y => { y with listening := false, didClose := true }) (fun _ _ _ => rfl), a1']
+        rw [← a2]
+        have hk2 : k ∈ ((r1.updConn x.id (fun y => { y with mailbox := some k.oid })).updConn x.id
+            (fun y => { y with listening := false, didClose := true })).mbs := hk
+        have hreg2 : ((r1.updConn x.id (fun y => { y with mailbox := some k.oid })).updConn x.id
+            (fun y => { y with listening := false, didClose := true })).Registered k.app k.mailboxId k.oid := by
+          rw [ek2, ek3]; exact m6 rfl
+        have := closeFinish_spec h2 hk2 hreg2 x.id (by
+          intro y hy e
+          obtain ⟨y0, _, rfl⟩ := List.mem_map.1 hy
+          split at e <;> simp_all) side mood t
+        rw [ek2, ek3] at this
+        exact this
+  unfold handleClose Sys.handleClose
+  simp only [absConn_didClose, absConn_id, absConn_mailboxId]
+  by_cases hd : x.didClose = true
+  · simp only [hd, if_true]
+    exact ⟨h.sendError _ _, rfl⟩
+  · simp only [hd, Bool.false_eq_true, if_false]
+    cases mailbox <;> cases hmi : x.mailboxId <;> dsimp only
+    · exact ⟨h.sendError _ _, rfl⟩
+    · exact go _
+    · exact go _
+    · rename_i m held
+      by_cases hne : m = held
+      · simp only [ne_eq, hne, not_true_eq_false, if_false]
+        exact go _
+      · simp only [ne_eq, hne, not_false_eq_true, if_true]
+        exact ⟨h.sendError _ _, rfl⟩
 
 end RSys
 end Wormhole
